@@ -219,3 +219,48 @@ def jwk_objects(prog, fn):
                                 members[ks[0]] = vs[0] if vs and not [l for l in v.leaves if not l.startswith("const:")] else None
         out[thumb] = members
     return out
+
+
+# documented spellings (tacd(8) / acmed.toml(5): `-` and `_` are both accepted for key types, case is ignored)
+PARSE_ORACLE = {
+    "acme_common::crypto::key_type::KeyType": {"rsa2048": "Rsa2048", "rsa4096": "Rsa4096", "ecdsa-p256": "EcdsaP256", "ecdsa_p256": "EcdsaP256", "ecdsa-p384": "EcdsaP384",
+                                               "ecdsa_p384": "EcdsaP384", "ecdsa-p521": "EcdsaP521", "ecdsa_p521": "EcdsaP521", "ECDSA-P256": "EcdsaP256", "ed25519": "Ed25519",
+                                               "ed448": "Ed448", "rsa1024": None, "ecdsa": None, "": None},
+    "acme_common::crypto::BaseHashFunction": {"sha256": "Sha256", "sha384": "Sha384", "sha512": "Sha512", "SHA-256": "Sha256", "sha_384": "Sha384", "sha1": None, "md5": None},
+    "acme_common::crypto::jws_signature_algorithm::JwsSignatureAlgorithm": {"HS256": "Hs256", "hs384": "Hs384", "HS512": "Hs512", "RS256": "Rs256", "ES256": "Es256", "es384": "Es384",
+                                                                            "ES512": "Es512", "Ed25519": "Ed25519", "ed448": "Ed448", "none": None, "RS512": None},
+}
+
+
+def parse_tables(ctx, rid, only=None):
+    """FromStr of the key-type / digest / signature-algorithm names, EVALUATED for every documented spelling (and a few that must
+    be refused): the name on the command line or in the configuration selects the like-named variant"""
+    from ..absint import Val, run, vstr
+    prog = ctx.prog
+    for adt, table in PARSE_ORACLE.items():
+        if only and adt not in only:
+            continue
+        fb = [b for k, b in prog.bodies.items() if k == "<%s as core::str::traits::FromStr>::from_str" % adt]
+        ctx.floor(rid, "FromStr body of %s" % adt.rsplit("::", 1)[1], len(fb), 1)
+        if not fb:
+            continue
+        body = prog.body(fb[0].key)
+        variants = set(prog.adt_variants(adt))
+        for name, want in sorted(table.items()):
+            if want is not None and want not in variants:
+                continue        # variant compiled out (ed25519/ed448 features)
+            r = run(body, {1: Val("ref", vstr(name))}, None, max_steps=20000)
+            got = None
+            if r.kind == "return" and r.ret is not None:
+                rv = r.ret.deref()
+                if rv.k == "adt" and rv.extra and rv.extra[1] == "Ok":
+                    x = rv.v[0].deref()
+                    got = x.v if x.k == "variant" else repr(x)
+                elif rv.k == "adt" and rv.extra and rv.extra[1] == "Err":
+                    got = None
+                else:
+                    got = "?" + repr(rv)
+            else:
+                got = "?" + str(r.kind)
+            ctx.require(rid, got == want, "%s:%s" % (body.file, body.line), "%s::from_str(%r) = %s (expected %s)" % (adt.rsplit("::", 1)[1], name, got, want or "an error"),
+                        [adt.rsplit("::", 1)[1] + "::from_str", name])
